@@ -110,9 +110,11 @@ func newWBRelated(r *rand.Rand, target, rel, pos string, sel rfc6352.Selection) 
 		m.Hrefs = []string{member(), related, related}
 	}
 	tree := rfc6352.MultiGetTree(m, &rfc6352.WriteOpts{R: r, SplitText: true})
-	return &wbCase{Op: "multiget", Expect: "deliver", Inject: "href " + rel + " to the request target, " + pos, Path: target,
+	cs := &wbCase{Op: "multiget", Expect: "deliver", Inject: "href " + rel + " to the request target, " + pos, Path: target,
 		Target: rfc6352.EscapeHref(target, nil, ""), ContentType: pick(r, contentTypes), Depth: pick(r, []string{"", "0", "1"}),
-		Body: render(r, tree), Want: &rfc6352.Request{MultiGet: m}}
+		Want: &rfc6352.Request{MultiGet: m}}
+	cs.Body, cs.Frame = render(r, tree)
+	return cs
 }
 
 // ---------------------------------------------------------------------------
@@ -280,7 +282,7 @@ func execSeq(c *fw.Ctx, sq *seqCase) {
 	c.Journal(sq)
 	defer c.JournalDone()
 	cp := &doubles.Capture{}
-	cl, err := carddav.NewClient(cp, "http://h/base/")
+	cl, err := carddav.NewClient(cp, endpoint)
 	if err != nil {
 		c.Inconclusive("C09 harness: cannot construct client: " + err.Error())
 		return
@@ -290,7 +292,7 @@ func execSeq(c *fw.Ctx, sq *seqCase) {
 		call := &sq.Calls[i]
 		if call.NewClient {
 			cp = &doubles.Capture{}
-			if cl, err = carddav.NewClient(cp, "http://h/base/"); err != nil {
+			if cl, err = carddav.NewClient(cp, endpoint); err != nil {
 				c.Inconclusive("C09 harness: cannot construct client: " + err.Error())
 				return
 			}
